@@ -413,7 +413,7 @@ func TestVerifC11Matcher(t *testing.T) {
 	defer st.Close()
 	sessions, maxPat, nq := 150, 2000, 120
 	if VThorough() {
-		sessions, maxPat, nq = 700, 50000, 300
+		sessions, maxPat, nq = 420, 3000, 200
 	}
 	for s := 0; s < sessions; s++ {
 		bitLen := 1024
@@ -429,7 +429,11 @@ func TestVerifC11Matcher(t *testing.T) {
 		}
 		mp := 40
 		if s%12 == 0 {
-			mp = maxPat // a geosite-scale set now and then
+			mp = maxPat // a large set now and then
+		}
+		if VThorough() && s%140 == 5 {
+			mp = 50000 // geosite scale (three sessions)
+			stats.Inc("dm.session.geosite_scale")
 		}
 		c11RunSession(st, stats, r, bitLen, nsets, mp, nq)
 	}
